@@ -399,6 +399,9 @@ impl<'a> IrCodegen<'a> {
 
         // Lower AST to IR using typechecker output when available
         let mut lowering = AstLowering::new_with_type_info(type_info_opt);
+        for (_, dep_ast) in &self.dependency_modules {
+            lowering.register_imported_newtypes(dep_ast);
+        }
         let ir_program = lowering.lower_program(program)?;
 
         // Build unified function registry including imported module functions
@@ -666,6 +669,11 @@ impl<'a> IrCodegen<'a> {
                         Some(info) => AstLowering::new_with_type_info(info),
                         None => AstLowering::new(),
                     };
+                    for (other, other_ast) in &self.dependency_modules {
+                        if other != name {
+                            lowering.register_imported_newtypes(other_ast);
+                        }
+                    }
                     let ir = lowering.lower_program(ast)?;
                     let use_emit_service = env::var("INCAN_EMIT_SERVICE").ok().as_deref() == Some("1");
                     let module_code = if use_emit_service {
